@@ -42,7 +42,8 @@ def check_selector(fi, arm, rule):
         rule.violation(where, fi.fq, norm(arm.body)[:120], "secret index is not expanded into an equality selector", "%s/selector" % fi.qual)
         return None
     s, name, g = sel
-    if norm(g.iter) == "range(len(self.arr))" and not g.ifs:
+    from ..flatten import resolutions
+    if "range(len(self.arr))" in resolutions(fi.node, g.iter) and not g.ifs:
         rule.ok(fi.loc(s), fi.fq, norm(s), "selector covers every position")
     else:
         rule.violation(fi.loc(s), fi.fq, norm(s), "selector does not range over every position of the array (an element could "
@@ -85,7 +86,8 @@ def rule_access(repo, r1, r2, r3):
                 test2 = rest[0] if len(rest) == 1 else test
             else:
                 test2 = test
-            rel = relations_when_false(test2, {"%s.value" % item: P.sym("i"), "len(self.arr)": P.sym("n")})
+            from ..flatten import resolve_locals as _rl
+            rel = relations_when_false(_rl(fi.node, test2), {"%s.value" % item: P.sym("i"), "len(self.arr)": P.sym("n")})
             want = sorted(map(str, [(">=0", P.sym("i")), (">=0", P.sym("n") - P.sym("i") - 1)]))
             if rel is not None and sorted(map(str, rel)) == want:
                 exc = norm(t.body[0].exc.func) if isinstance(t.body[0].exc, ast.Call) else norm(t.body[0].exc)
@@ -203,6 +205,9 @@ def check(repo, rep, tier):
                        "selection, row-view protocol; plus the C06 non-interference analysis over array.py and linalg.py.")
     rep.trusted = ["if_then_else(c, a, b) selects a when c is 1 (C02/C09)", "item == ix yields a Boolean wire (C02)"]
     rep.not_decided = ["value agreement with Python lists over all contents / indices / histories"]
+    r6 = rep.rule("R-C15-6", "the per-position multiplexer if_then_else selects exactly (shared with C02)", floor=2)
+    from .c02 import rule_selection
+    rule_selection(repo, r6)
     r1 = rep.rule("R-C15-1", "one-hot selector over every position with sum == 1", floor=4)
     r2 = rep.rule("R-C15-2", "index agreement of read and write", floor=3)
     r3 = rep.rule("R-C15-3", "bounds check 0 <= index < len, IndexError, suppressible", floor=2)
